@@ -881,7 +881,11 @@ func (f *framer) readTypeInfo() TypeInfo {
 
 	if simple.typ == TypeCustom {
 		simple.custom = f.readString()
-		if cassType := getApacheCassandraType(simple.custom); cassType != TypeCustom {
+		switch cassType := getApacheCassandraType(simple.custom); cassType {
+		case TypeCustom, TypeList, TypeSet, TypeMap, TypeTuple:
+			// a custom option carries only the class name: a bare collection or
+			// tuple class has no element types following it, so it stays custom
+		default:
 			simple.typ = cassType
 		}
 	}
